@@ -221,17 +221,33 @@ static bool UMWalk(const UMessage * msg, int depth, long & budget)
    }
    return true;
 }
+static bool g_contain = true;   // false in --replay: the case then dies with the full sanitizer report
+// runs the walk with read containment; returns false if it did not complete; records the violation
+static bool ContainedWalk(const UMessage * um, mutx::Case & c, const char * what)
+{
+   volatile bool completed = false; volatile bool endless = false;
+   {
+      c02::FaultScope fs(g_contain);
+      if (sigsetjmp(c02::g_faultJmp, 1) == 0) { long budget = 200000; if (!UMWalk(um, 0, budget)) endless = true; completed = true; }
+   }
+   if (c02::g_faultCaught == 2) { c02::Phase("contained-write-fault"); abort(); }   // a write through the read API: never contained
+   if (c02::g_faultCaught == 1) c.Fail(std::string("contained:segv:read:") + what, "SIGSEGV/SIGBUS on a READ access at a wild address inside the micro-Message read API (the accessor follows a length/count word out of the supplied buffer)");
+   else if (c02::g_containedAsanReads > 0) c.Fail(std::string("contained:asan:") + c02::g_containedKind + ":read:" + what, std::string("read outside the supplied buffer inside the micro-Message read API: ") + c02::g_containedFirst + verif::Fmt(" (%d report(s) in this case)", (int)c02::g_containedAsanReads));
+   else if (endless) c.Fail(std::string("walk:field-iteration-does-not-end:") + what, "field iteration over a buffer of this size exceeded 200000 steps");
+   if ((c02::g_faultCaught || c02::g_containedAsanReads) && g_contain) { if (ftruncate(2, 0) == 0) (void)lseek(2, 0, SEEK_SET); }   // drop the contained report(s) from the worker's stderr file so that a later death is not attributed to them
+   return completed && !endless;
+}
 static void RunMicroRead(const PartDef &, const Seed & seed, const std::string & in, const std::vector<uint32> &, int, bool dev0, mutx::Case & c)
 {
    ExactBuf eb(in); UMessage um; memset(&um, 0, sizeof(um));
    Phase("parse"); c_status_t st; { Metered mt; st = UMInitializeWithExistingData(&um, eb.p, eb.n); }
    CheckAlloc(c, in.size());
    if (st == CB_NO_ERROR) {
-      c.Outcome("ok"); Phase("field-walk"); long budget = 200000;
-      { Metered mt; if (!UMWalk(&um, 0, budget)) c.Fail("walk:field-iteration-does-not-end", "field iteration over a buffer of this size exceeded 200000 steps"); }
+      c.Outcome("ok"); Phase("field-walk");
+      { Metered mt; (void)ContainedWalk(&um, c, "field-walk"); }
       CheckAlloc(c, in.size());
    } else { c.Outcome("err"); if (dev0) c.Fail("seed:rejected", "valid seed rejected by UMInitializeWithExistingData"); }
-   if (!dev0) { Phase("reuse"); ExactBuf sb(seed.bytes); long budget = 200000; if (UMInitializeWithExistingData(&um, sb.p, sb.n) != CB_NO_ERROR || !UMWalk(&um, 0, budget)) c.Fail("reuse:valid-seed-rejected", "UMessage object re-initialised with a valid encoding fails"); }
+   if (!dev0) { Phase("reuse"); ExactBuf sb(seed.bytes); mutx::Case c2; if (UMInitializeWithExistingData(&um, sb.p, sb.n) != CB_NO_ERROR || !ContainedWalk(&um, c2, "reuse") || c2.failed) c.Fail("reuse:valid-seed-rejected", "UMessage object re-initialised with a valid encoding fails: " + c2.msg); }
    Phase("idle");
 }
 
@@ -487,7 +503,7 @@ static void BuildParts(bool thorough, verif::Result & res)
 
    // MessageIOGateway, default encoding
    { PartDef p; p.name = "gw_message"; p.entry = "MessageIOGateway::DoInput (default encoding)"; p.modes = 2; p.resetDocumented = true; p.nest = true;
-     p.wrapNest = [](const std::string & b) { std::string s(8, '\0'); WrLE((uint8 *)&s[0], (uint32)b.size()); return s + b; };
+     p.wrapNest = [](const std::string & b) { std::string s(8, '\0'); WrLE((uint8 *)&s[0], (uint32)b.size()); WrLE((uint8 *)&s[4], (uint32)MUSCLE_MESSAGE_ENCODING_DEFAULT); return s + b; };
      for (size_t i = 0; i < seqs.size(); i++) { MessageIOGateway snd; p.seeds.push_back(StreamSeed("frames(" + seqNames[i] + ")", snd, seqs[i], true)); }
      p.pairSeeds = thorough ? 6 : 0; p.run = RunStreamGateway; GwKind k; k.make = []() { return AbstractMessageIOGatewayRef(new MessageIOGateway()); }; k.canon = CANON_MSGS; g_gw[p.name] = k; g_parts.push_back(p); }
    // MessageIOGateway, zlib encoding
@@ -575,13 +591,15 @@ int main(int argc, char ** argv)
    if (getenv("C02_ASAN_OPTS_SET") == NULL) {
       // enumeration runs unsymbolized (llvm-symbolizer costs ~0.2 s per dying case); --replay keeps the symbolized report
       bool isReplayRun = false; for (int i = 1; i < argc; i++) if (strcmp(argv[i], "--replay") == 0) isReplayRun = true;
-      const char * old = getenv("ASAN_OPTIONS"); std::string o = (old && *old) ? (std::string(old) + ":") : std::string(); o += "max_allocation_size_mb=256"; if (!isReplayRun) o += ":symbolize=0";
+      const char * old = getenv("ASAN_OPTIONS"); std::string o = (old && *old) ? (std::string(old) + ":") : std::string(); o += "max_allocation_size_mb=256:halt_on_error=0:suppress_equal_pcs=0"; if (!isReplayRun) o += ":symbolize=0";
       setenv("ASAN_OPTIONS", o.c_str(), 1);
       if (!isReplayRun) { const char * ou = getenv("UBSAN_OPTIONS"); std::string u = (ou && *ou) ? (std::string(ou) + ":") : std::string(); u += "symbolize=0"; setenv("UBSAN_OPTIONS", u.c_str(), 1); } setenv("C02_ASAN_OPTS_SET", "1", 1); execv("/proc/self/exe", argv); perror("execv"); return 3;
    }
    verif::Args args; args.Parse(argc, argv); verif::Result res; res.harness = "C02_parsers";
    (void)SetConsoleLogLevel(MUSCLE_LOG_NONE);
    c02::InstallDeathAttribution();
+   g_contain = args.replay.empty();
+   if (args.replay.empty()) { if (!freopen("/dev/null", "w", stdout)) {} }   // the C codecs printf() diagnostics on bad input; results go to --out
 
    std::string replayPart; size_t replayIndex = 0; bool thorough = args.Thorough();
    if (!args.replay.empty()) { verif::ReplayDoc d; if (!d.Load(args.replay)) { fprintf(stderr, "cannot read %s\n", args.replay.c_str()); return 3; } replayPart = d.Str("part"); replayIndex = (size_t)d.Int("index"); if (d.Str("tier") == "thorough") thorough = true; }
@@ -608,7 +626,11 @@ int main(int argc, char ** argv)
       mutx::Runner R(args, res, pd.name); R.SetCpuLimit(5.0);
       mutx::CaseFn fn = [&pd](size_t i, mutx::Case & c) { PartDef::Concrete cc; pd.Decode(i, cc); pd.run(pd, pd.seeds[cc.seed], cc.in, cc.cuts, cc.mode, cc.dev0, c); c02::g_allocCap = 0; };
       mutx::DescFn desc = [&pd](size_t i) { PartDef::Concrete cc; pd.Decode(i, cc); return cc.desc; };
-      if (isReplay) { if (replayIndex >= pd.total) { fprintf(stderr, "index out of range for part %s (tier mismatch? pass --tier thorough)\n", pd.name.c_str()); return 3; } const int rr = R.ReplayIndex(replayIndex, fn, desc); fflush(stdout); _exit(rr); }
+      if (isReplay) { if (replayIndex >= pd.total) { fprintf(stderr, "index out of range for part %s (tier mismatch? pass --tier thorough)\n", pd.name.c_str()); return 3; } printf("replay part=%s case %llu: %s\n", pd.name.c_str(), (unsigned long long)replayIndex, desc(replayIndex).c_str()); fflush(stdout);
+         struct itimerval itv; memset(&itv, 0, sizeof(itv)); itv.it_value.tv_sec = 50; signal(SIGVTALRM, SIG_DFL); setitimer(ITIMER_VIRTUAL, &itv, NULL);   // same watchdog as the engine's confirmation run (10 x 5 s CPU)
+         mutx::Case c; fn(replayIndex, c);
+         printf("outcome: %s\n%s%sresult: %s %s %s\n", c.outcome.c_str(), c.note.empty() ? "" : c.note.c_str(), c.note.empty() ? "" : "\n", c.failed ? "VIOLATION" : "OK", c.failed ? NormalizeKey(pd.name, c.key).c_str() : "", c.msg.c_str());
+         fflush(stdout); _exit(c.failed ? 1 : 0); }
       const double now = verif::NowS(), end = args.t0 + args.deadline * 0.92; const double share = (end - now) / (double)(nRun - done);
       R.SetDeadline(now + std::max(5.0, share));
       const size_t v0 = res.violations.size();
